@@ -1,4 +1,4 @@
-import GBS.Extracted
+import GBS.Extracted.Bond
 /-!
 # `bond.py` / `core.py:94-99`: compatibility and the index filter
 
